@@ -1,5 +1,22 @@
-from props.common import run_bounded
+from props.common import run_bounded, verify_keys, add_obs
+from pv import obs_effects as E
+from pv import obs_classes as C
+
+KEYS = ['parso.python.errors.ErrorFinder._add_syntax_error', 'parso.python.errors.ErrorFinder._add_indentation_error',
+        'parso.normalizer.Issue.__init__']
+
+
+def _effects():
+    return (E.tree_purity_obligations('C13', ['parso.grammar.Grammar.iter_errors']) +
+            E.frame_obligations('C13', ['parso.grammar.Grammar.iter_errors']))
 
 
 def run(report):
+    add_obs(report, _effects)
+    add_obs(report, C.error_rule_obligations)
+    add_obs(report, C.add_issue_callsite_obligations, 'parso.python.errors', 'C13')
+    verify_keys(report, KEYS)
+    report.assume("totality of the ~45 rule classes on arbitrary recovered trees (index/attribute safety through grammar "
+                  "shape types) is not discharged deductively; it rests on the bounded stand-in",
+                  "one-issue-per-line follows from the dict keyed by line in ErrorFinder.add_issue (checked bounded)")
     run_bounded(report, ['err', 'blk'])
